@@ -16,6 +16,16 @@ oracle = the same torch operation on the dense matrix of the same kernel object.
 relations lazy-vs-eager / transpose / diag / stacked blocks / active_dims twin on every zoo kernel for every
 TLC-enumerated broadcast pattern.
 
+Data geometry (LazyKernel.tla "the data lattice"): the relations are decided by input points in special position, so the rows of
+x1 / x2 are points with an identity and a class (origin, unit, lattice, generic; coincident rows; rows shared by x1 and x2).  The
+"geo" runs enumerate (broadcast pattern x geometry) under the invariants GeoCover (every class in x1 and in x2, coincident and
+shared rows, x2 = cat(new rows, x1): a sub-block with equal inputs), GeoAgree and StackIsBlock, with the relations as actions (transpose, diag11, diagstack, stack, rows / columns / whole
+tensor); the stub replays them exactly (equal points = equal labels) and EVERY zoo kernel evaluates every zoo relation on every
+(pattern, geometry), the classes realised in its own input space (c06_kernels.geo_inputs: centre and sphere of the unit ball for the
+cylindrical kernel, whole periods, exact grid nodes, inducing points, the boundary of a compact support, zero / one-hot rows, the
+antipode).  In every other family the real kernels are evaluated on the geometry DataGeo of the spec (origin and unit rows, the
+last rows of x1 = the first rows of x2); the stub keeps pairwise distinct labels there.
+
 History dimension (KernelPure.tla, checks/c06_pure.py): a kernel is a mutable object and every derivation (kernel[idx],
 expand_batch, K[idx], K.mT, repeat, unsqueeze, diagonal, evaluate_kernel) copies it and assigns on the copy.  TLC checks
 Pure / DerivedAgree on a heap model of the copy discipline for plain, Scale, Additive, Product and nested compositions
@@ -27,7 +37,8 @@ Every zoo instance has pairwise distinct hyperparameters (ARD components, batch 
 
 Cell signatures: C06/<operation>/<t1|mt>/<class>[/only:<kernel>] with the class computed by the spec (or 'empty-result' /
 'plain:<index kinds>' for a case the model does not flag; 'only:<kernel>' when the generic stub passes the case), and
-C06/zoo/<relation>/<kernel | any-kernel> ('any-kernel' when the plain RBF kernel fails the relation on the same pattern),
+C06/zoo/<relation>/<kernel | any-kernel>[/special-rows] ('any-kernel' when the plain RBF kernel fails the relation on the same
+pattern and geometry; 'special-rows' when the relation holds for this kernel and pattern on generic data and fails on a geometry),
 C06/pure/<operation>/<structure | t1 | mt>[/only:<kernel>] (the original object changed), C06/pure-derived/<operation>/<structure>,
 C06/diag-layout/<kernel>.
 
@@ -65,6 +76,11 @@ P_RANK1 = [((2,), (2,), (2,)), ((), (2,), (2,)), ((2,), (), ()), ((), (1,), (2,)
 P_RANK2 = [((2,), (2, 2), (2, 2)), ((2, 1), (2, 2), (1, 2)), ((), (2, 1), (1, 2)), ((2, 2), (2, 2), (2, 2)), ((2, 1), (), (2,)), ((2,), (2, 1), (2,))]
 P_PARAM = [p for p in P_RANK1 + P_RANK2 if p[0] != ()]
 FAMS_U = ["rs", "cs", "ss", "ix", "lx", "el"]
+# data geometries (point ids of the rows of x1, of x2; 0 origin, 1 unit, 2 lattice, 3 / 4 generic): a family that satisfies GeoCover
+# for N1 = 2, N2 = 3 (TLC checks it), and the larger family of the thorough tier
+GEOS_COVER = [((0, 3), (2, 0, 3)), ((1, 2), (0, 0, 4)), ((1, 1), (1, 3, 0))]
+GEOS_MORE = [((0, 0), (0, 3, 3)), ((2, 3), (2, 2, 1)), ((3, 3), (3, 3, 3)), ((3, 0), (4, 3, 1))]
+GEO_PATTERNS = '{<<p, "geo">> : p \\in BroadcastablePatterns({<<>>, <<2>>, <<2, 1>>}, {1, 2}, %d)}'
 
 
 def plan(thorough):
@@ -72,12 +88,12 @@ def plan(thorough):
     its initial states are (pattern, family, chunk) triples, which TLC's workers explore in parallel."""
     R = []
 
-    def run(name, n1, n2, t, jobs, tails=((1, 1),), ad=(), steps=1, nchunks=1, inv=("Agree", "SizeIsDenseShape"), jobexpr=None, split=1, workers=6):
+    def run(name, n1, n2, t, jobs, tails=((1, 1),), ad=(), steps=1, nchunks=1, inv=("Agree", "SizeIsDenseShape"), jobexpr=None, split=1, workers=6, geos=()):
         # `split` JVMs share the chunks of one run
         nch = max(nchunks, split)
         for s in range(split):
             R.append(dict(name=name + ("_%d" % s if split > 1 else ""), n1=n1, n2=n2, t=t, tails=tails, ad=ad, jobs=jobs, jobexpr=jobexpr, steps=steps, nchunks=nch,
-                          chunks=[c for c in range(nch) if c % split == s], inv=list(inv), pad=2 if thorough else 1, workers=workers))
+                          chunks=[c for c in range(nch) if c % split == s], inv=list(inv), pad=2 if thorough else 1, workers=workers, geos=geos if geos == "all" else list(geos)))
 
     U = ((), (), ())
     allp = [U] + P_RANK1 + P_RANK2
@@ -118,6 +134,16 @@ def plan(thorough):
     # every broadcast pattern (for the metamorphic section): TLC enumerates them and checks _size against the dense shape
     run("patterns", 2, 2, 1, None, inv=("SizeIsDenseShape",), workers=2,
         jobexpr='{<<p, "none">> : p \\in BroadcastablePatterns({<<>>, <<2>>, <<2, 1>>}, {1, 2}, %d)}' % (2 if thorough else 1))
+    # the data lattice: every broadcast pattern x geometry with the relations as actions (t = 1 and t = 2 stubs; the zoo section takes
+    # its (pattern, geometry) pairs from the first run)
+    ginv = ("GeoAgree", "SizeIsDenseShape", "GeoCover", "StackIsBlock")
+    run("geo", 2, 3, 1, None, inv=ginv, workers=4, geos=GEOS_COVER, jobexpr=GEO_PATTERNS % (2 if thorough else 1))
+    run("geo2", 2, 3, 2, None, inv=ginv, workers=4, geos=GEOS_COVER, jobexpr=GEO_PATTERNS % 1)
+    if thorough:
+        # more geometries on the patterns with data batch rank <= 1 (stub and zoo), and EVERY assignment of points to rows (n1 = n2 = 2),
+        # unbatched and with an aligned batch (the stub only)
+        run("geom", 2, 3, 1, None, inv=ginv[:2] + ginv[3:], workers=4, geos=GEOS_MORE, jobexpr=GEO_PATTERNS % 1)
+        run("geoall", 2, 2, 1, fams([U, P_RANK1[0]], ["geo"]), inv=ginv[:2] + ginv[3:], workers=8, geos="all")
     return R
 
 
@@ -125,11 +151,12 @@ def write_mc(wd, r):
     os.makedirs(wd, exist_ok=True)
     mod = "MC_LK_" + r["name"]
     jobs = r["jobexpr"] or "{" + ", ".join("<<%s, %s>>" % (tla(p), tla(f)) for p, f in r["jobs"]) + "}"
+    geos = "AllGeos(N1, N2)" if r.get("geos") == "all" else "{" + ", ".join(tla(g) for g in r.get("geos") or []) + "}"
     with open(os.path.join(wd, mod + ".tla"), "w") as f:
-        f.write("---- MODULE %s ----\nEXTENDS LazyKernel\nTailsDef == %s\nADDef == %s\nJobsDef == %s\nChunkSetDef == {%s}\n====\n" % (
-            mod, tla(r["tails"]), tla(r["ad"]), jobs, ", ".join(str(c) for c in r["chunks"])))
+        f.write("---- MODULE %s ----\nEXTENDS LazyKernel\nTailsDef == %s\nADDef == %s\nJobsDef == %s\nChunkSetDef == {%s}\nGeosDef == %s\n====\n" % (
+            mod, tla(r["tails"]), tla(r["ad"]), jobs, ", ".join(str(c) for c in r["chunks"]), geos))
     cfg = os.path.join(wd, mod + ".cfg")
-    tlc.write_cfg(cfg, spec="Spec", constants={"N1": r["n1"], "N2": r["n2"], "T": r["t"], "Tails": "<- TailsDef", "AD": "<- ADDef", "Jobs": "<- JobsDef", "Repairs": set(REPAIRS_IN_TREE),
+    tlc.write_cfg(cfg, spec="Spec", constants={"N1": r["n1"], "N2": r["n2"], "T": r["t"], "Tails": "<- TailsDef", "AD": "<- ADDef", "Jobs": "<- JobsDef", "Geos": "<- GeosDef", "Repairs": set(REPAIRS_IN_TREE),
                                                "MaxSteps": r["steps"], "Pad": r["pad"], "NChunks": r["nchunks"], "ChunkSet": "<- ChunkSetDef"},
                   invariants=r["inv"])
     return os.path.join(wd, mod + ".tla"), cfg
@@ -248,11 +275,40 @@ def dense_of(r):
     return r.to_dense() if hasattr(r, "to_dense") else r
 
 
-def label_dense(torch, cfg, pat):
-    """The dense label tensor of LazyKernel.tla computed directly (the oracle the stub is compared with)."""
+def geo_rows(fam, geo):
+    """(rows of x1, rows of x2) when the stub's labels follow the geometry (family 'geo'), else None (Iota labels)"""
+    return (list(geo[0]), list(geo[1])) if fam == "geo" else None
+
+
+def label_rows(torch, cfg, pat, fam=None, geo=None, which="12"):
+    """The row labels of LazyKernel.tla for (x1, x2) - or (x1, x1) for which = '11', (xs, xs) with xs = cat(x1, x2) for 'ss'"""
+    from checks import c06_kernels as kz
     PB, D1, D2 = [tuple(x) for x in pat]
-    t, n1, n2 = cfg["t"], cfg["n1"], cfg["n2"]
-    B = bshape(PB, D1, D2)
+    n1, n2 = cfg["n1"], cfg["n2"]
+
+    def iota(shape):
+        n = 1
+        for s in shape:
+            n *= s
+        return torch.arange(n, dtype=torch.float64).reshape(tuple(shape))
+    gr = geo_rows(fam, geo)
+    lu = iota(D1 + (n1,)) if gr is None else kz.label_rows(D1, gr[0])
+    lv = iota(D2 + (n2,)) if gr is None else kz.label_rows(D2, gr[1])
+    if which == "11":
+        lv = lu
+    elif which == "ss":
+        bd = bshape(D1, D2)
+        lu = lv = torch.cat([lu.expand(*bd, n1), lv.expand(*bd, n2)], -1)
+    return lu, lv
+
+
+def label_dense(torch, cfg, pat, fam=None, geo=None, which="12"):
+    """The dense label tensor of LazyKernel.tla computed directly (the oracle the stub is compared with)."""
+    PB = tuple(pat[0])
+    t = cfg["t"]
+    lu, lv = label_rows(torch, cfg, pat, fam, geo, which)
+    n1, n2 = lu.shape[-1], lv.shape[-1]
+    B = bshape(PB, tuple(lu.shape[:-1]), tuple(lv.shape[:-1]))
 
     def iota(shape):
         n = 1
@@ -260,8 +316,8 @@ def label_dense(torch, cfg, pat):
             n *= s
         return torch.arange(n, dtype=torch.float64).reshape(tuple(shape))
     p = sum(iota(PB).reshape(*PB, 1, 1) * (8 ** i) for i in range(len(cfg["tails"])))
-    u = iota(D1 + (n1,)).repeat_interleave(t, -1).unsqueeze(-1)
-    v = iota(D2 + (n2,)).repeat_interleave(t, -1).unsqueeze(-2)
+    u = lu.repeat_interleave(t, -1).unsqueeze(-1)
+    v = lv.repeat_interleave(t, -1).unsqueeze(-2)
     a = torch.arange(t, dtype=torch.float64).repeat(n1).unsqueeze(-1)
     c = torch.arange(t, dtype=torch.float64).repeat(n2)
     return ((((p * 32 + u) * 4 + a) * 32 + v) * 4 + c).expand(*B, n1 * t, n2 * t).contiguous()
@@ -272,13 +328,21 @@ def real_names(cfg, thorough):
     return [z.name for z in kz.zoo() if z.t == cfg["t"] and z.xkind == "real" and (z.ad or not cfg["ad"]) and (thorough or z.quick or cfg["t"] > 1)]
 
 
-def setup(cfg, pat, kname, square=False):
+def cache_key(cfg, pat, kname, which, fam, geo):
+    return (cfg["name"], tuple(map(tuple, pat)), kname, which, repr(geo) if (fam == "geo" or kname != "stub") else None)
+
+
+def setup(cfg, pat, kname, square=False, fam=None, geo=None, which="12"):
     """(kernel, x1, x2, lazy K, dense D) for a run configuration, a broadcast pattern and a kernel name; None when the
-    kernel cannot be evaluated densely on this pattern at all (outside its domain: not a C06 question)."""
+    kernel cannot be evaluated densely on this pattern at all (outside its domain: not a C06 question).  The stub's rows carry
+    the labels of the spec (Iota, or the geometry in family 'geo'); a real kernel's rows are the points of `geo` realised in its
+    input space.  which: '12' kernel(x1, x2), '11' kernel(x1, x1), 'ss' kernel(xs, xs) with xs = cat(x1, x2)."""
     import gpytorch
     from checks import c06_kernels as kz
     torch = core.setup_torch()
-    key = (cfg["name"], tuple(map(tuple, pat)), kname, square)
+    if square:
+        which = "11"
+    key = cache_key(cfg, pat, kname, which, fam, geo)
     if key in _CACHE:
         return _CACHE[key]
     PB, D1, D2 = [tuple(x) for x in pat]
@@ -286,7 +350,10 @@ def setup(cfg, pat, kname, square=False):
     n1, n2 = cfg["n1"], cfg["n2"]
     if kname == "stub":
         k = kz.LabelKernel(t=cfg["t"], tails=cfg["tails"], batch_shape=torch.Size(PB), active_dims=ad)
-        x1, x2 = kz.label_inputs(D1, n1, ad[0] if ad else 0), kz.label_inputs(D2, n2, ad[0] if ad else 0)
+        lu, lv = label_rows(torch, cfg, pat, fam, geo, which)
+        x1, x2 = kz.label_inputs_from(lu, ad[0] if ad else 0), kz.label_inputs_from(lv, ad[0] if ad else 0)
+        if which != "12":
+            x2 = x1
     else:
         z = kz.by_name(kname)
         if PB and not z.batch:
@@ -294,9 +361,15 @@ def setup(cfg, pat, kname, square=False):
             return None
         sd = kz.seed_of(kname, PB, D1, D2, ad)
         k = kz.build(z, PB, ad, sd)
-        x1, x2 = kz.inputs(z, D1, n1, sd + 1), kz.inputs(z, D2, n2, sd + 2)
-    if square:
-        x2 = x1
+        if geo:
+            x1, x2 = kz.geo_inputs(z, k, ad, D1, list(geo[0]), sd + 1), kz.geo_inputs(z, k, ad, D2, list(geo[1]), sd + 1)
+        else:
+            x1, x2 = kz.inputs(z, D1, n1, sd + 1), kz.inputs(z, D2, n2, sd + 2)
+        if which == "11":
+            x2 = x1
+        elif which == "ss":
+            bd = bshape(D1, D2)
+            x1 = x2 = torch.cat([x1.expand(*bd, *x1.shape[-2:]), x2.expand(*bd, *x2.shape[-2:])], -2)
     with gpytorch.settings.lazily_evaluate_kernels(False):
         ok, E = core.guarded(lambda: dense_of(k(x1, x2)))
     if not ok:
@@ -312,7 +385,10 @@ def setup(cfg, pat, kname, square=False):
     return _CACHE[key]
 
 
-def compare(torch, got, want, exact):
+TOL_CUSP = 1e-6  # zoo relations of a kernel with a cusp at distance 0 on data with coincident / shared points (see c06_kernels.Z.cusp)
+
+
+def compare(torch, got, want, exact, tol=TOL):
     """-> (ok, kind, detail)"""
     if tuple(got.shape) != tuple(want.shape):
         return False, "shape", "shape %s, expected %s" % (list(got.shape), list(want.shape))
@@ -323,7 +399,7 @@ def compare(torch, got, want, exact):
             return True, "", ""
         bad = (got.double() != want.double()).nonzero()[0].tolist()
         return False, "values", "entry %s is %s, expected %s" % (bad, decode(float(got[tuple(bad)])), decode(float(want[tuple(bad)])))
-    ok, msg = core.close(got, want, TOL, TOL)
+    ok, msg = core.close(got, want, tol, tol)
     return ok, "" if ok else "values", msg
 
 
@@ -382,9 +458,14 @@ def run_steps(torch, obj, D, hist):
     return "ok", val, ref
 
 
-def describe(cfg, pat, hist):
-    s = "t=%d x1:%s x2:%s param-batch=%s%s K" % (cfg["t"], list(pat[1]) + [cfg["n1"], "d"], list(pat[2]) + [cfg["n2"], "d"], list(pat[0]),
-                                                 " active_dims=%s" % list(cfg["ad"]) if cfg["ad"] else "")
+def show_geo(geo):
+    nm = {0: "origin", 1: "unit", 2: "lattice", 3: "g3", 4: "g4"}
+    return "x1 rows [%s] x2 rows [%s]" % (", ".join(nm[int(i)] for i in geo[0]), ", ".join(nm[int(i)] for i in geo[1]))
+
+
+def describe(cfg, pat, hist, fam=None, geo=None):
+    s = "t=%d x1:%s x2:%s param-batch=%s%s%s K" % (cfg["t"], list(pat[1]) + [cfg["n1"], "d"], list(pat[2]) + [cfg["n2"], "d"], list(pat[0]),
+                                                   " active_dims=%s" % list(cfg["ad"]) if cfg["ad"] else "", " geometry %s" % show_geo(geo) if fam == "geo" else "")
     for h in hist:
         if h["op"] == "getitem":
             s += show_index(h["idx"])
@@ -392,9 +473,16 @@ def describe(cfg, pat, hist):
             s = s[:-1] + "kernel" + show_index(h["idx"])
         elif h["op"] == "kexpand":
             s = s[:-1] + "kernel.expand_batch(%s)" % list(h["arg"])
+        elif h["op"] in REL_OPS:
+            s = s[:-1] + REL_OPS[h["op"]]
         else:
             s += ".%s(%s)" % (h["op"], ", ".join(str(int(x)) for x in h["arg"]))
     return s
+
+
+REL_OPS = {"diag11": "kernel(x1, x1): diag=True / .diagonal() against the diagonal of the dense matrix",
+           "diagstack": "kernel(xs, xs), xs = cat(x1, x2): diag=True / .diagonal() against the diagonal of the dense matrix",
+           "stack": "kernel(xs, xs)[..., :n1*t, n1*t:], xs = cat(x1, x2), against dense kernel(x1, x2)"}
 
 
 def cell_of(cfg, pat, hist):
@@ -415,16 +503,18 @@ def cell_of(cfg, pat, hist):
     return "C06/%s/%s/%s" % (h["op"], tk, cls if cls != "none" else "plain")
 
 
-def replay_state(torch, cfg, pat, hist, knames, thorough):
+def replay_state(torch, cfg, pat, hist, knames, thorough, fam=None, geo=None):
     """-> list of result dicts (one per kernel)"""
     out = []
     last = hist[-1]
-    desc = describe(cfg, pat, hist)
+    desc = describe(cfg, pat, hist, fam, geo)
     if last["op"] in ("kgetitem", "kexpand"):
-        return replay_kernel_op(torch, cfg, pat, hist, knames, desc)
+        return replay_kernel_op(torch, cfg, pat, hist, knames, desc, fam, geo)
+    if last["op"] in REL_OPS:
+        return replay_rel(torch, cfg, pat, hist, desc, fam, geo)
     square = last["op"] == "diagonal"
     # the declarative expectation of TLC against torch on the label tensor (validates PyIndex.tla and the label algebra)
-    L = label_dense(torch, cfg, pat)
+    L = label_dense(torch, cfg, pat, fam, geo)
     stage, _, _ = "ok", None, None
     ref = L
     try:
@@ -447,14 +537,14 @@ def replay_state(torch, cfg, pat, hist, knames, thorough):
     if oerr != bool(last["eerr"]) or (not oerr and (list(ref.shape) != list(last["eshape"]) or [int(x) for x in ref.reshape(-1)] != list(last["edata"]))):
         return [dict(machinery="LazyKernel.tla / PyIndex.tla disagree with torch on the label tensor for %s: spec err=%s shape=%s, torch err=%s shape=%s" % (
             desc, last["eerr"], list(last["eshape"]), oerr, None if oerr else list(ref.shape)))]
-    key0 = [cfg["t"], cfg["n1"], cfg["n2"], list(cfg["tails"]), list(cfg["ad"]), [list(x) for x in pat], [[h["op"], h["idx"], list(h["arg"])] for h in hist]]
+    key0 = [cfg["t"], cfg["n1"], cfg["n2"], list(cfg["tails"]), list(cfg["ad"]), [list(x) for x in pat], [[h["op"], h["idx"], list(h["arg"])] for h in hist]] + ([geo] if fam == "geo" else [])
     if oerr:
         return [dict(key=key0, ok=True, nontrivial=False, n=1)]
     nontrivial = ref.numel() > 0 and (last["op"] != "getitem" or ref.numel() < L.numel() or list(ref.shape) != list(L.shape))
     stub_ok = None
     stub_pure = None
     for kn in knames:
-        su = setup(cfg, pat, kn, square and kn != "stub")
+        su = setup(cfg, pat, kn, square and kn != "stub", fam, geo)
         if su is None:
             continue
         k, x1, x2, K, D = su
@@ -470,8 +560,8 @@ def replay_state(torch, cfg, pat, hist, knames, thorough):
                 # the stub's forward is the label formula itself, so Kernel.__call__ / evaluate_kernel handed it other inputs
                 # (active_dims selection, lazy wrapping); on the unchanged tree this never happens
                 res.update(ok=False, sig="C06/stub-evaluation/%s" % ("t1" if cfg["t"] == 1 else "mt"),
-                           detail="%s: kernel(x1, x2) of the label stub is not the label tensor (Kernel.__call__ passed different inputs to forward)" % describe(cfg, pat, []),
-                           case=dict(kind="state", cfg=cfg, pat=[list(x) for x in pat], hist=hist, kernel=kn))
+                           detail="%s: kernel(x1, x2) of the label stub is not the label tensor (Kernel.__call__ passed different inputs to forward)" % describe(cfg, pat, [], fam, geo),
+                           case=dict(kind="state", cfg=cfg, pat=[list(x) for x in pat], hist=hist, kernel=kn, fam=fam, geo=geo))
                 out.append(res)
                 continue
             res["sample"] = dict(case=desc, expect_shape=list(last["eshape"]), expect_labels=list(last["edata"])[:8], model_agrees=bool(last["agree"]))
@@ -503,18 +593,72 @@ def replay_state(torch, cfg, pat, hist, knames, thorough):
             res["drift_kind"] = "refuted" if res["ok"] else "unpredicted"
             res["drift"] = "LazyKernel.tla predicts %s for %s but the stub kernel %s" % ("agreement" if last["agree"] else "a mismatch", desc, "agrees" if res["ok"] else "fails")
         if not res["ok"]:
-            res["case"] = dict(kind="state", cfg=cfg, pat=[list(x) for x in pat], hist=hist, kernel=kn)
+            res["case"] = dict(kind="state", cfg=cfg, pat=[list(x) for x in pat], hist=hist, kernel=kn, fam=fam, geo=geo)
         out.append(res)
-        pr = pure_result(torch, cfg, pat, hist, kn, square and kn != "stub", key0, stub_pure, res)
+        pr = pure_result(torch, cfg, pat, hist, kn, square and kn != "stub", key0, stub_pure, res, fam=fam, geo=geo)
         out.extend(pr)
         if kn == "stub":
             stub_pure = not pr
     return out
 
 
-def pure_result(torch, cfg, pat, hist, kn, square, key0, stub_pure, res, dpat=None):
+def replay_rel(torch, cfg, pat, hist, desc, fam, geo):
+    """The relations of the geometry family on the label stub (exact): every request form of the diagonal of kernel(x1, x1) /
+    kernel(xs, xs) and the upper right block of kernel(xs, xs), xs = cat(x1, x2)."""
+    import gpytorch
+    last = hist[-1]
+    op = last["op"]
+    which = "11" if op == "diag11" else "ss"
+    t, n1 = cfg["t"], cfg["n1"]
+    Lab = label_dense(torch, cfg, pat, fam, geo, which)
+    ref = Lab.diagonal(dim1=-1, dim2=-2) if op != "stack" else Lab[..., : n1 * t, n1 * t:]
+    if bool(last["eerr"]) or list(ref.shape) != list(last["eshape"]) or [int(x) for x in ref.reshape(-1)] != list(last["edata"]):
+        return [dict(machinery="LazyKernel.tla disagrees with torch on the label tensor for %s: spec err=%s shape=%s, torch shape=%s" % (desc, last["eerr"], list(last["eshape"]), list(ref.shape)))]
+    if op == "stack" and not torch.equal(ref, label_dense(torch, cfg, pat, fam, geo)):
+        return [dict(machinery="the block of the stacked label tensor is not the label tensor of kernel(x1, x2) for %s" % desc)]
+    key0 = [cfg["t"], cfg["n1"], cfg["n2"], list(cfg["tails"]), list(cfg["ad"]), [list(x) for x in pat], [[op, [], []]], geo]
+    su = setup(cfg, pat, "stub", False, fam, geo, which)
+    k, xa, _, K, D = su
+    tk = "t1" if t == 1 else "mt"
+    case = dict(kind="state", cfg=cfg, pat=[list(x) for x in pat], hist=hist, kernel="stub", fam=fam, geo=geo)
+    res = dict(key=key0 + ["stub"], ok=True, nontrivial=True, n=1,
+               sample=dict(case=desc, expect_shape=list(last["eshape"]), expect_labels=list(last["edata"])[:8], model_agrees=bool(last["agree"])))
+    if D.shape != Lab.shape or not torch.equal(D, Lab):
+        res.update(ok=False, sig="C06/stub-evaluation/%s" % tk, case=case,
+                   detail="%s: the dense matrix of the label stub is not the label tensor (Kernel.__call__ passed different inputs to forward)" % desc)
+        return [res]
+
+    def lz(flag, fn):
+        def g():
+            with gpytorch.settings.lazily_evaluate_kernels(flag):
+                return dense_of(fn())
+        return g
+    if op == "stack":
+        forms = [("lazy", lz(True, lambda: K[..., : n1 * t, n1 * t:])), ("eager", lz(False, lambda: dense_of(k(xa, xa))[..., : n1 * t, n1 * t:]))]
+    else:
+        forms = [("kernel(x, x, diag=True) lazy", lz(True, lambda: k(xa, xa, diag=True))), ("kernel(x, x, diag=True) eager", lz(False, lambda: k(xa, xa, diag=True))),
+                 ("kernel(x, diag=True)", lz(True, lambda: k(xa, diag=True))), ("kernel(x, x).diagonal()", lz(True, lambda: k(xa, xa).diagonal()))]
+    for name, fn in forms:
+        res["n"] += 1
+        okf, got = core.guarded(fn)
+        if not okf:
+            res.update(ok=False, sig="C06/%s/%s/plain" % (op, tk), case=case, detail="%s [%s]: raised %s" % (desc, name, got))
+            break
+        okc, kind, msg = compare(torch, got, ref, exact=True)
+        if not okc:
+            res.update(ok=False, sig="C06/%s/%s/plain" % (op, tk), case=case, detail="%s [%s]: differs from the labels the relation selects (%s): %s" % (desc, name, kind, msg))
+            break
+    if res["ok"] != bool(last["agree"]):
+        res["drift_kind"] = "refuted" if res["ok"] else "unpredicted"
+        res["drift"] = "LazyKernel.tla predicts %s for %s but the stub kernel %s" % ("agreement" if last["agree"] else "a mismatch", desc, "agrees" if res["ok"] else "fails")
+    out = [res]
+    out.extend(pure_result(torch, cfg, pat, hist, "stub", False, key0, None, res, fam=fam, geo=geo, which=which))
+    return out
+
+
+def pure_result(torch, cfg, pat, hist, kn, square, key0, stub_pure, res, dpat=None, fam=None, geo=None, which="12"):
     """The ORIGINAL kernel object (shared by every case of this worker on the same set-up) after the case: [] or one failing result."""
-    ckey = (cfg["name"], tuple(map(tuple, dpat if dpat is not None else pat)), kn, square)
+    ckey = cache_key(cfg, dpat if dpat is not None else pat, kn, "11" if square else which, fam, geo)
     last = hist[-1]
     full = last["op"] in ("kgetitem", "kexpand") or int(core.digest(key0), 16) % 4 == 0
     msg = purity(torch, ckey, full)
@@ -524,11 +668,11 @@ def pure_result(torch, cfg, pat, hist, kn, square, key0, stub_pure, res, dpat=No
     op = last["op"] if (last["op"] != "getitem" or len(hist) == 1) else "getitem-chain"
     sig = "C06/pure/%s/%s" % (op, "t1" if cfg["t"] == 1 else "mt") + ("/only:" + kn if kn != "stub" and stub_pure else "")
     return [dict(key=key0 + [kn, "pure"], ok=False, nontrivial=True, sig=sig,
-                 detail="%s%s: the operation changed the ORIGINAL kernel object: %s" % (describe(cfg, pat, hist), "" if kn == "stub" else " [kernel %s]" % kn, msg),
-                 case=dict(kind="state", cfg=cfg, pat=[list(x) for x in pat], hist=hist, kernel=kn))]
+                 detail="%s%s: the operation changed the ORIGINAL kernel object: %s" % (describe(cfg, pat, hist, fam, geo), "" if kn == "stub" else " [kernel %s]" % kn, msg),
+                 case=dict(kind="state", cfg=cfg, pat=[list(x) for x in pat], hist=hist, kernel=kn, fam=fam, geo=geo))]
 
 
-def replay_kernel_op(torch, cfg, pat, hist, knames, desc):
+def replay_kernel_op(torch, cfg, pat, hist, knames, desc, fam=None, geo=None):
     """kernel[idx] and kernel.expand_batch(shape) on the kernel alone."""
     from checks import c06_kernels as kz
     import gpytorch
@@ -556,7 +700,7 @@ def replay_kernel_op(torch, cfg, pat, hist, knames, desc):
         # data with the parameter batch shape (kernel[idx]) or without batch (expand_batch): the dense matrix of the
         # original kernel, indexed / expanded, is the oracle
         dpat = (PB, PB, PB) if h["op"] == "kgetitem" else (PB, (), ())
-        su = setup(cfg, dpat, kn)
+        su = setup(cfg, dpat, kn, False, fam, geo)
         if su is None:
             continue
         k, x1, x2, K, D = su
@@ -605,9 +749,9 @@ def replay_kernel_op(torch, cfg, pat, hist, knames, desc):
             res["drift_kind"] = "refuted" if res["ok"] else "unpredicted"
             res["drift"] = "LazyKernel.tla predicts %s for %s but the stub kernel %s" % ("agreement" if h["agree"] else "a mismatch", desc, "agrees" if res["ok"] else "fails")
         if not res["ok"]:
-            res["case"] = dict(kind="state", cfg=cfg, pat=[list(x) for x in pat], hist=hist, kernel=kn)
+            res["case"] = dict(kind="state", cfg=cfg, pat=[list(x) for x in pat], hist=hist, kernel=kn, fam=fam, geo=geo)
         out.append(res)
-        pr = pure_result(torch, cfg, pat, hist, kn, False, key0, stub_pure, res, dpat=dpat)
+        pr = pure_result(torch, cfg, pat, hist, kn, False, key0, stub_pure, res, dpat=dpat, fam=fam, geo=geo)
         out.extend(pr)
         if kn == "stub":
             stub_pure = not pr
@@ -636,19 +780,21 @@ def _state_worker(item):
         if not hist:
             continue
         pat = to_py(st["pat"])
+        geo = to_py(st["geo"])
         last = hist[-1]
         names = ["stub"]
-        if not last["eerr"]:
+        fam = str(st["fam"])
+        if not last["eerr"] and fam != "geo":  # (the real kernels see every geometry in the zoo section)
             real = real_names(cfg, thorough)
-            fam = str(st["fam"])
             if real:
                 if fam in ("ops", "kern", "chain") or (thorough and fam in ("bx", "bf", "be")):
                     names += real
                 else:
                     hsh = int(core.digest([pat, [[h["op"], h["idx"], h["arg"]] for h in hist]]), 16)
                     m = 2 if not thorough else 4
-                    names += [real[(hsh + j * 7) % len(real)] for j in range(min(m, len(real)))]
-        res = replay_state(torch, cfg, pat, hist, list(dict.fromkeys(names)), thorough)
+                    m = min(m, len(real))  # m kernels, evenly spaced in the list from a case-dependent start
+                    names += [real[(hsh + (j * len(real)) // m) % len(real)] for j in range(m)]
+        res = replay_state(torch, cfg, pat, hist, list(dict.fromkeys(names)), thorough, fam, geo)
         for r in res:
             r["br"] = [str(x) for x in last["br"]] + [str(last["path"])]
             r["predicted"] = bool(last["agree"]) or bool(last["eerr"])
@@ -688,10 +834,11 @@ def _zoo_worker(item):
     out = []
     t = z.t
     n1, n2 = 2, 3  # n1 equals the parameter batch size 2 on purpose (shape heuristics must not confuse a batch with a matrix axis)
-    for pat in item["pats"]:
+    for ip, pat in enumerate(item["pats"]):
         PB, D1, D2 = [tuple(x) for x in pat]
         if PB and not z.batch:
             continue
+        geos = item["geos_by_pat"][ip] if item.get("geos_by_pat") else (item.get("geos") or [None])
         for use_ad in (False, True):
             if (use_ad and not z.ad) or item.get("only_ad", use_ad) != use_ad:
                 continue
@@ -700,127 +847,159 @@ def _zoo_worker(item):
             okb, k = core.guarded(lambda: kz.build(z, PB, ad, sd))
             if not okb:
                 raise core.Machinery("cannot construct %s with batch %s active_dims %s: %s" % (z.name, PB, ad, k))
-            x1, x2 = kz.inputs(z, D1, n1, sd + 1), kz.inputs(z, D2, n2, sd + 2)
-            desc = "%s param-batch=%s x1:%s x2:%s%s" % (z.name, list(PB), list(D1) + [n1, 3], list(D2) + [n2, 3], " active_dims=%s" % list(ad) if ad else "")
-            B = bshape(PB, D1, D2)
-            bp = "unbatched" if not B else ("aligned" if D1 == D2 == PB else "broadcast(%s)" % ",".join(n for n, s in (("param", PB), ("x1", D1), ("x2", D2)) if s != B))
-            with gpytorch.settings.lazily_evaluate_kernels(False):
-                ok, E = core.guarded(lambda: dense_of(k(x1, x2)))
-                ok2, Exx = core.guarded(lambda: dense_of(k(x1, x1)))
-            if not ok or not ok2:
-                out.append(dict(key=["zoo", z.name, pat, use_ad, "not-evaluable"], ok=True, nontrivial=False, skipped="%s: eager evaluation raises (%s): outside the kernel's domain, not decided here" % (desc, E if not ok else Exx)))
-                continue
-            fp0 = cp.fingerprint(torch, k)
-            if item.get("probe") and not use_ad:
-                out.extend(symmetry_probe(torch, z, k, x1, x2, E, pat, desc))
-
-            def rel(name, fn, want, nontrivial=True):
-                r = dict(key=["zoo", z.name, [list(x) for x in pat], use_ad, name], ok=True, nontrivial=nontrivial)
-                okf, got = core.guarded(fn)
-                # a relation that fails for the plain RBF kernel on the same pattern is not specific to this kernel
-                cell = "C06/zoo/%s/%s" % (name, "any-kernel" if name in generic_fail(pat, use_ad, item["seed"]) else z.name)
-                if not okf:
-                    r.update(ok=False, sig=cell, detail="%s [%s]: %s raised %s" % (desc, bp, name, got))
+            fail0 = set()  # relations that fail on generic data (the first geometry, None) for this kernel, pattern, active_dims
+            for geo in geos:
+                n1, n2 = (len(geo[0]), len(geo[1])) if geo else (2, 3)
+                if geo:
+                    # the points of the geometry realised in the input space of this kernel (equal ids = equal rows, also across x1 / x2)
+                    okg, xx = core.guarded(lambda: (kz.geo_inputs(z, k, ad, D1, list(geo[0]), sd + 1), kz.geo_inputs(z, k, ad, D2, list(geo[1]), sd + 1)))
+                    if not okg:
+                        raise core.Machinery("cannot realise the geometry %s for %s: %s" % (geo, z.name, xx))
+                    x1, x2 = xx
                 else:
-                    okc, kind, msg = compare(torch, got, want, exact=False)
-                    if not okc:
-                        r.update(ok=False, sig=cell, detail="%s [%s]: %s (%s): %s" % (desc, bp, name, kind, msg))
-                if not r["ok"]:
-                    r["case"] = dict(kind="zoo", kernel=z.name, pats=[[list(x) for x in pat]], seed=item["seed"])
-                elif name == "lazy-vs-eager" and not use_ad:
-                    r["sample"] = dict(case=desc, relation=name)
-                out.append(r)
-
-            def lazy(f):
-                def g():
-                    with gpytorch.settings.lazily_evaluate_kernels(True):
-                        return dense_of(f())
-                return g
-            rel("lazy-vs-eager", lazy(lambda: k(x1, x2)), E)
-            rel("lazy-shape", lambda: torch.zeros(lazy_shape(k, x1, x2)), torch.zeros(E.shape), nontrivial=bool(B))
-            with gpytorch.settings.lazily_evaluate_kernels(False):
-                ok21, E21 = core.guarded(lambda: dense_of(k(x2, x1)))
-            if not ok21:
-                out.append(dict(key=["zoo", z.name, pat, use_ad, "swap-not-evaluable"], ok=True, nontrivial=False,
-                                skipped="%s: eager evaluation of kernel(x2, x1) raises (%s) although kernel(x1, x2) works: transposition not decided" % (desc, E21)))
-            elif z.sym:
-                rel("transpose", lambda: E21.mT, E)
-                rel("lazy-mT", lazy(lambda: k(x1, x2).mT), E.mT)
-            if z.diag:
-                dref = Exx.diagonal(dim1=-1, dim2=-2)
-                for lz in (True, False):
-                    def dg(lz=lz):
-                        with gpytorch.settings.lazily_evaluate_kernels(lz):
-                            return dense_of(k(x1, x1, diag=True))
-                    rel("diag=True" if lz else "diag=True(eager)", dg, dref)
-
-                def kd():
-                    with gpytorch.settings.lazily_evaluate_kernels(True):
-                        return k(x1, x1).diagonal()
-                rel("K.diagonal()", kd, dref)
-            if z.stack:
-                xs = torch.cat([x1.expand(*B, n1, x1.shape[-1]), x2.expand(*B, n2, x2.shape[-1])], -2)
-                for lz in (True, False):
-                    def st(lz=lz):
-                        with gpytorch.settings.lazily_evaluate_kernels(lz):
-                            S = k(xs, xs)
-                            return dense_of(S[..., : n1 * t, n1 * t:]) if lz else dense_of(S)[..., : n1 * t, n1 * t:]
-                    rel("stacked-block" if lz else "stacked-block(eager)", st, E)
-            # slices WITHOUT an explicit stop on the other axis (the default stop is the size of that axis)
-            rel("lazy-rows", lazy(lambda: k(x1, x2)[..., 0:t, :]), E[..., 0:t, :])
-            rel("lazy-cols", lazy(lambda: k(x1, x2)[..., :, t:]), E[..., :, t:])
-            # derived objects that own a NEW kernel object: a batch index on the lazy tensor, kernel[i]; the value of K[i] is judged
-            # where the parameter batch is aligned with the output batch (the unaligned forms are classes of LazyKernel.tla)
-            if B:
-                with gpytorch.settings.lazily_evaluate_kernels(True):
-                    Kb = k(x1, x2)  # created before the derivation, evaluated after it
-                if len(PB) in (0, len(B)):
-                    rel("lazy-batch-int", lazy(lambda: Kb[B[0] - 1]), E[B[0] - 1])
-                    rel("lazy-batch-tensor", lazy(lambda: Kb[torch.tensor([B[0] - 1, 0])]), E[torch.tensor([B[0] - 1, 0])])
-                else:
-                    core.guarded(lambda: Kb[B[0] - 1])
-                if PB:
-                    core.guarded(lambda: k[PB[0] - 1])
-                    core.guarded(lambda: k.expand_batch(torch.Size((2,) + PB)))
-                rel("pure(K.to_dense() after K[i])", lambda: dense_of(Kb), E)
-                if len(PB) in (0, len(B)):
-                    rel("pure(K[0] after K[i])", lazy(lambda: Kb[0]), E[0])
-            # ... and after everything above (lazy tensors, transposes, diagonals, slices, batch indices): the kernel object is what
-            # it was and evaluates to the same matrix
-            def again():
+                    x1, x2 = kz.inputs(z, D1, n1, sd + 1), kz.inputs(z, D2, n2, sd + 2)
+                desc = "%s param-batch=%s x1:%s x2:%s%s%s" % (z.name, list(PB), list(D1) + [n1, 3], list(D2) + [n2, 3], " active_dims=%s" % list(ad) if ad else "",
+                                                              " geometry %s" % show_geo(geo) if geo else "")
+                gk_ = [int(i) for i in geo[0]] + [-1] + [int(i) for i in geo[1]] if geo else []
+                B = bshape(PB, D1, D2)
+                bp = "unbatched" if not B else ("aligned" if D1 == D2 == PB else "broadcast(%s)" % ",".join(n for n, s in (("param", PB), ("x1", D1), ("x2", D2)) if s != B))
                 with gpytorch.settings.lazily_evaluate_kernels(False):
-                    return dense_of(k(x1, x2))
-            rel("pure(kernel(x1,x2) again)", again, E)
-            d1 = cp.fp_diff(torch, fp0, cp.fingerprint(torch, k))
+                    ok, E = core.guarded(lambda: dense_of(k(x1, x2)))
+                    ok2, Exx = core.guarded(lambda: dense_of(k(x1, x1)))
+                if not ok or not ok2:
+                    out.append(dict(key=["zoo", z.name, pat, use_ad, gk_, "not-evaluable"], ok=True, nontrivial=False, skipped="%s: eager evaluation raises (%s): outside the kernel's domain, not decided here" % (desc, E if not ok else Exx)))
+                    continue
+                fp0 = cp.fingerprint(torch, k)
+                if item.get("probe") and not use_ad and not geo:
+                    out.extend(symmetry_probe(torch, z, k, x1, x2, E, pat, desc))
 
-            def fp_same():
-                if d1:
-                    raise RuntimeError("the kernel object changed: " + d1)
-                return torch.zeros(1)
-            rel("pure(kernel object)", fp_same, torch.zeros(1), nontrivial=False)
-            if d1:  # the relations below would only repeat the corruption
-                continue
-            if use_ad:
-                # active_dims reads back as given (order included), wherever the zoo entry puts it
-                def readback():
-                    bufs = [m.active_dims for m in k.modules() if getattr(m, "active_dims", None) is not None]
-                    return torch.stack([b.double() for b in bufs]) if bufs else torch.zeros(0)
-                rel("active_dims-readback", readback, torch.tensor(ad, dtype=torch.float64).expand(len([m for m in k.modules() if getattr(m, "active_dims", None) is not None]), len(ad)))
-                k2 = kz.twin(z, PB, sd, k)
-                A = torch.tensor(ad)
-                rel("active_dims-twin", lazy(lambda: k2(x1[..., A], x2[..., A])), E)
+                def rel(name, fn, want, nontrivial=True):
+                    r = dict(key=["zoo", z.name, [list(x) for x in pat], use_ad, gk_, name], ok=True, nontrivial=nontrivial)
+                    okf, got = core.guarded(fn)
+                    # a relation that fails for the plain RBF kernel on the same pattern and geometry is not specific to this kernel; one that
+                    # holds for this kernel on generic data and fails on a geometry is decided by the special rows
+                    cell = "C06/zoo/%s/%s" % (name, "any-kernel" if name in generic_fail(pat, use_ad, item["seed"], geo) else z.name)
+                    if geo and geos[0] is None and name not in fail0:
+                        cell += "/special-rows"
+                    if not okf:
+                        r.update(ok=False, sig=cell, detail="%s [%s]: %s raised %s" % (desc, bp, name, got))
+                    else:
+                        okc, kind, msg = compare(torch, got, want, exact=False, tol=TOL_CUSP if (geo and z.cusp) else TOL)
+                        if not okc:
+                            r.update(ok=False, sig=cell, detail="%s [%s]: %s (%s): %s" % (desc, bp, name, kind, msg))
+                    if not r["ok"]:
+                        r["case"] = dict(kind="zoo", kernel=z.name, pats=[[list(x) for x in pat]], geos=[None, geo] if geo else [None], seed=item["seed"])
+                        if not geo:
+                            fail0.add(name)
+                    elif name == "lazy-vs-eager" and not use_ad:
+                        r["sample"] = dict(case=desc, relation=name)
+                    out.append(r)
+
+                def lazy(f):
+                    def g():
+                        with gpytorch.settings.lazily_evaluate_kernels(True):
+                            return dense_of(f())
+                    return g
+                rel("lazy-vs-eager", lazy(lambda: k(x1, x2)), E)
+                rel("lazy-shape", lambda: torch.zeros(lazy_shape(k, x1, x2)), torch.zeros(E.shape), nontrivial=bool(B))
+                with gpytorch.settings.lazily_evaluate_kernels(False):
+                    ok21, E21 = core.guarded(lambda: dense_of(k(x2, x1)))
+                if not ok21:
+                    out.append(dict(key=["zoo", z.name, pat, use_ad, gk_, "swap-not-evaluable"], ok=True, nontrivial=False,
+                                    skipped="%s: eager evaluation of kernel(x2, x1) raises (%s) although kernel(x1, x2) works: transposition not decided" % (desc, E21)))
+                elif z.sym:
+                    rel("transpose", lambda: E21.mT, E)
+                    rel("lazy-mT", lazy(lambda: k(x1, x2).mT), E.mT)
+                if z.diag:
+                    dref = Exx.diagonal(dim1=-1, dim2=-2)
+                    for lz in (True, False):
+                        def dg(lz=lz):
+                            with gpytorch.settings.lazily_evaluate_kernels(lz):
+                                return dense_of(k(x1, x1, diag=True))
+                        rel("diag=True" if lz else "diag=True(eager)", dg, dref)
+
+                    def kd():
+                        with gpytorch.settings.lazily_evaluate_kernels(True):
+                            return k(x1, x1).diagonal()
+                    rel("K.diagonal()", kd, dref)
+                if z.stack:
+                    xs = torch.cat([x1.expand(*B, n1, x1.shape[-1]), x2.expand(*B, n2, x2.shape[-1])], -2)
+                    for lz in (True, False):
+                        def st(lz=lz):
+                            with gpytorch.settings.lazily_evaluate_kernels(lz):
+                                S = k(xs, xs)
+                                return dense_of(S[..., : n1 * t, n1 * t:]) if lz else dense_of(S)[..., : n1 * t, n1 * t:]
+                        rel("stacked-block" if lz else "stacked-block(eager)", st, E)
+                    if z.diag and geo:
+                        # every row of the geometry on one diagonal
+                        with gpytorch.settings.lazily_evaluate_kernels(False):
+                            okS, Ess = core.guarded(lambda: dense_of(k(xs, xs)))
+                        if okS:
+                            for lz in (True, False):
+                                def dgs(lz=lz):
+                                    with gpytorch.settings.lazily_evaluate_kernels(lz):
+                                        return dense_of(k(xs, xs, diag=True))
+                                rel("diag=True(stacked)" if lz else "diag=True(stacked,eager)", dgs, Ess.diagonal(dim1=-1, dim2=-2))
+
+                            def kds():
+                                with gpytorch.settings.lazily_evaluate_kernels(True):
+                                    return k(xs, xs).diagonal()
+                            rel("K.diagonal()(stacked)", kds, Ess.diagonal(dim1=-1, dim2=-2))
+                # slices WITHOUT an explicit stop on the other axis (the default stop is the size of that axis)
+                rel("lazy-rows", lazy(lambda: k(x1, x2)[..., 0:t, :]), E[..., 0:t, :])
+                rel("lazy-cols", lazy(lambda: k(x1, x2)[..., :, t:]), E[..., :, t:])
+                # derived objects that own a NEW kernel object: a batch index on the lazy tensor, kernel[i]; the value of K[i] is judged
+                # where the parameter batch is aligned with the output batch (the unaligned forms are classes of LazyKernel.tla)
+                if B:
+                    with gpytorch.settings.lazily_evaluate_kernels(True):
+                        Kb = k(x1, x2)  # created before the derivation, evaluated after it
+                    if len(PB) in (0, len(B)):
+                        rel("lazy-batch-int", lazy(lambda: Kb[B[0] - 1]), E[B[0] - 1])
+                        rel("lazy-batch-tensor", lazy(lambda: Kb[torch.tensor([B[0] - 1, 0])]), E[torch.tensor([B[0] - 1, 0])])
+                    else:
+                        core.guarded(lambda: Kb[B[0] - 1])
+                    if PB:
+                        core.guarded(lambda: k[PB[0] - 1])
+                        core.guarded(lambda: k.expand_batch(torch.Size((2,) + PB)))
+                    rel("pure(K.to_dense() after K[i])", lambda: dense_of(Kb), E)
+                    if len(PB) in (0, len(B)):
+                        rel("pure(K[0] after K[i])", lazy(lambda: Kb[0]), E[0])
+                # ... and after everything above (lazy tensors, transposes, diagonals, slices, batch indices): the kernel object is what
+                # it was and evaluates to the same matrix
+                def again():
+                    with gpytorch.settings.lazily_evaluate_kernels(False):
+                        return dense_of(k(x1, x2))
+                rel("pure(kernel(x1,x2) again)", again, E)
+                d1 = cp.fp_diff(torch, fp0, cp.fingerprint(torch, k))
+
+                def fp_same():
+                    if d1:
+                        raise RuntimeError("the kernel object changed: " + d1)
+                    return torch.zeros(1)
+                rel("pure(kernel object)", fp_same, torch.zeros(1), nontrivial=False)
+                if d1:  # the relations below - and the remaining geometries, which share this kernel object - would only repeat the corruption
+                    break
+                if use_ad:
+                    # active_dims reads back as given (order included), wherever the zoo entry puts it
+                    def readback():
+                        bufs = [m.active_dims for m in k.modules() if getattr(m, "active_dims", None) is not None]
+                        return torch.stack([b.double() for b in bufs]) if bufs else torch.zeros(0)
+                    rel("active_dims-readback", readback, torch.tensor(ad, dtype=torch.float64).expand(len([m for m in k.modules() if getattr(m, "active_dims", None) is not None]), len(ad)))
+                    k2 = kz.twin(z, PB, sd, k)
+                    A = torch.tensor(ad)
+                    rel("active_dims-twin", lazy(lambda: k2(x1[..., A], x2[..., A])), E)
     return out
 
 
 _GEN = {}
 
 
-def generic_fail(pat, use_ad, seed):
-    """names of the zoo relations that fail for the reference kernel (RBF) on this pattern"""
-    key = (repr(pat), use_ad, seed)
+def generic_fail(pat, use_ad, seed, geo=None):
+    """names of the zoo relations that fail for the reference kernel (RBF) on this pattern (and geometry)"""
+    key = (repr(pat), use_ad, seed, repr(geo))
     if key not in _GEN:
         _GEN[key] = set()  # (set before the recursive call: the reference run itself sees an empty set)
-        res = _zoo_worker(dict(kernel="RBF", pats=[pat], seed=seed, only_ad=use_ad))
+        res = _zoo_worker(dict(kernel="RBF", pats=[pat], geos=[geo], seed=seed, only_ad=use_ad))
         _GEN[key] = {r["key"][-1] for r in res if not r.get("ok", True)}
     return _GEN[key]
 
@@ -870,8 +1049,10 @@ def run(ck):
                "with start/stop in -(n+2)..n+2 or None, step None/1/2/3 on one matrix axis, [..., s, s] fast path), ss, ix (ints incl. out of range), lx (1-d "
                "index tensors, zipped pairs), el (ellipsis placements), bx/be/bf (ints, slices, index tensors on the batch axes x representative "
                "matrix indices), chains K[i][j], transpose / unsqueeze / repeat / diagonal, kernel[idx] / expand_batch; each executed on the label stub "
-               "(exact) and on zoo kernels (1e-10); plus zoo kernel x broadcast pattern x relation (lazy-vs-eager, transpose, diag, stacked block, "
-               "active_dims twin, batch index, purity of the kernel object); plus every KernelPure.tla history evaluate -> derive -> evaluate the ORIGINAL "
+               "(exact) and on zoo kernels (1e-10, rows = the points of DataGeo: origin, unit, rows shared by x1 and x2); plus (broadcast pattern x data geometry x "
+               "relation) of the geo runs on the stub (exact; equal points = equal labels); plus zoo kernel x broadcast pattern x geometry (generic random rows "
+               "and every TLC-enumerated geometry: origin / unit / lattice rows, coincident rows, rows shared by x1 and x2, realised per kernel) x relation "
+               "(lazy-vs-eager, transpose, diag, diag of the stacked input, stacked block, active_dims twin, batch index, purity of the kernel object); plus every KernelPure.tla history evaluate -> derive -> evaluate the ORIGINAL "
                "again (structures plain / Scale / Additive / Product / nested, label and real compositions) and diag-layout case (n, d, order) decoded "
                "on the ARD derivative kernels.  non-trivial = valid operation whose result is non-empty and differs from the untouched tensor (index selects a "
                "proper subset or reshapes); distinct = distinct (configuration, operation, kernel)")
@@ -881,6 +1062,11 @@ def run(ck):
                       "last_dim_is_batch (deprecated) is not exercised; KeOps / CUDA kernels are outside the domain",
                       "a (kernel, pattern) whose EAGER dense evaluation itself raises is outside the kernel's domain and is skipped (batch-mode support is C08's question)",
                       "diag=True is compared only for x1 == x2 (its documented precondition)",
+                      "zoo relations of the Matern-1/2 kernel (not differentiable at distance 0) on geometries are compared to 1e-6: between two rows that are the same point the rounding error "
+                      "of the squared distance enters with its square root (1e-8 / lengthscale) and differs between two calls",
+                      "the Hamming kernel is defined on one-hot rows: its origin is realised as the first word of the vocabulary (on an all-zero row k(x, x) depends on torch.equal(x1, x2), outside the domain); "
+                      "special points are points of the kernel's domain: a (kernel, pattern, geometry) whose eager evaluation raises is skipped like any other input outside the domain; "
+                      "the unit point of the cylindrical kernel has no zero coordinate (the kernel jitters zero coordinates, which moves a boundary point with a zero coordinate outside the ball)",
                       "purity is judged on what an evaluation can observe: parameters, buffers, batch shapes, module tree of the original kernel object and its matrix / diagonal evaluated again (not object identity of members, not the distance_module cache)",
                       "the diag layout is decoded against the closed-form diagonal entries of the derivative kernels (RBF: 1, 1/l_a^2, 3/l_a^4; Matern-5/2: 1, 5/(3 l_a^2); polynomial: derivative of (x.x'+c)^p), every instance with pairwise distinct parameters",
                       "linear_operator's conversion of mixed indices to index tensors (_convert_indices_to_tensors) is modelled as numpy-correct"]
@@ -930,7 +1116,7 @@ def run(ck):
             raise tlc.TLCError("TLC failed on %s:\n%s" % (r["name"], res.stdout[-1500:]))
     t1 = os.times()
     ck.extra["cpu_seconds"] = dict(tlc=round(t1.children_user + t1.children_system - t0.children_user - t0.children_system, 1))
-    items, patterns = [], []
+    items, patterns, geopairs = [], [], []
     for i, (r, res) in enumerate(zip(P, results)):
         with open(res.dump_path) as f:
             text = f.read()
@@ -940,7 +1126,14 @@ def run(ck):
                 patterns.append(to_py(st["pat"]))
             ck.section("patterns", enumerated=len(patterns))
             continue
-        if len(hdrs) <= len(r["jobs"]) * len(r["chunks"]):
+        ninit = text.count("hist = <<>>")
+        if r["name"] in ("geo", "geom"):
+            # the (broadcast pattern, geometry) pairs of the zoo section: the initial states of these runs
+            for _, st in tlaval.parse_dump(text):
+                if not st["hist"]:
+                    geopairs.append((to_py(st["pat"]), to_py(st["geo"])))
+            ck.section("geometry", pattern_geometry_pairs=sum(1 for _, st in tlaval.parse_dump(text) if not st["hist"]), geometries=len(r["geos"]))
+        if len(hdrs) <= (ninit if r["jobs"] is None else len(r["jobs"]) * len(r["chunks"]) * max(1, len(r["geos"]) if r["geos"] != "all" else 1)):
             ck.vacuous("TLC run %s generated no case" % r["name"])
         ck.section("gen", runs=1, states=len(hdrs))
         step = 120
@@ -966,7 +1159,7 @@ def run(ck):
                 unpred += 1
             elif not r["predicted"]:
                 pess += 1
-    need = ["fast", "getitem", "squeeze", "absorbed", "t1", "mt-divided", "mt-nonslice", "mt-step", "mt-indivisible", "x-direct", "x-expanded", "k-same", "k-getitem",
+    need = ["diag11", "diagstack", "stack", "fast", "getitem", "squeeze", "absorbed", "t1", "mt-divided", "mt-nonslice", "mt-step", "mt-indivisible", "x-direct", "x-expanded", "k-same", "k-getitem",
             "k-expanded", "ad-kept"] + (["ad-changed"] if "active_dims_buffer" not in REPAIRS_IN_TREE else []) + ["transpose", "unsqueeze", "repeat", "diagonal", "kgetitem", "kexpand", "dense"]
     for b in need:
         if b not in seen and not only:
@@ -1035,9 +1228,18 @@ def run(ck):
         ck.vacuous("TLC enumerated no broadcast pattern")
     zitems = []
     names = [z.name for z in kz.zoo()]
+    # every geometry TLC enumerated for a pattern (None = generic random rows, first: it decides the 'special-rows' suffix)
+    geos_of = {}
+    for pt, g in geopairs:
+        if g not in geos_of.setdefault(repr(pt), []):
+            geos_of[repr(pt)].append(g)
+    if not only:
+        for pt in patterns:
+            if len(geos_of.get(repr(pt), [])) < len(GEOS_COVER):
+                raise core.Machinery("the geo run enumerated %d geometries for the pattern %s, the covering family has %d" % (len(geos_of.get(repr(pt), [])), pt, len(GEOS_COVER)))
     for nm in names:
-        for i in range(0, len(patterns), 12):
-            zitems.append(dict(kernel=nm, pats=patterns[i:i + 12], seed=ck.seed, probe=True))
+        for i in range(0, len(patterns), 4):
+            zitems.append(dict(kernel=nm, pats=patterns[i:i + 4], geos_by_pat=[[None] + geos_of.get(repr(pt), []) for pt in patterns[i:i + 4]], seed=ck.seed, probe=True))
     zres = core.pmap(_zoo_worker, zitems, chunksize=1)
     skipped = [r.pop("skipped") for r in zres if r.get("skipped")]
     ck.extra["not_evaluable"] = dict(count=len(skipped), examples=skipped[:8])
@@ -1051,7 +1253,7 @@ def run(ck):
             first.append(r)
     ids = {id(r) for r in first}
     ck.absorb(first + [r for r in allr if id(r) not in ids])
-    ck.section("zoo", kernels=len(names), patterns=len(patterns), relations=len(zres))
+    ck.section("zoo", kernels=len(names), patterns=len(patterns), geometries=1 + max([len(v) for v in geos_of.values()] or [0]), relations=len(zres))
     if os.environ.get("VERIF_C06_DUMPFAIL"):  # development: every failing cell with its detail
         import json
         with open(os.environ["VERIF_C06_DUMPFAIL"], "w") as f:
@@ -1074,11 +1276,11 @@ def replay(rep):
         res = cp.replay_case(case)
         res = [r for r in res if r.get("sig") == rep["signature"]] or res
     elif case["kind"] == "zoo":
-        res = _zoo_worker(dict(kernel=case["kernel"], pats=case["pats"], seed=case.get("seed", rep.get("seed", 0))))
+        res = _zoo_worker(dict(kernel=case["kernel"], pats=case["pats"], geos=case.get("geos") or [None], seed=case.get("seed", rep.get("seed", 0))))
         res = [r for r in res if r.get("sig") == rep["signature"]] or res
     else:
         names = ["stub"] + ([case["kernel"]] if case["kernel"] != "stub" else [])  # the stub decides the '/only:<kernel>' suffix
-        res = [r for r in replay_state(torch, case["cfg"], case["pat"], case["hist"], names, True) if r.get("machinery") or r["key"][-1] == case["kernel"] or r["key"][-2:] == [case["kernel"], "pure"]]
+        res = [r for r in replay_state(torch, case["cfg"], case["pat"], case["hist"], names, True, case.get("fam"), case.get("geo")) if r.get("machinery") or r["key"][-1] == case["kernel"] or r["key"][-2:] == [case["kernel"], "pure"]]
     rc = 0
     for r in res:
         if r.get("machinery"):
